@@ -198,6 +198,13 @@ def run(ctx):
             c = rng.randrange(n)
             hist.insert(rng.randrange(3), [c, rng.choice([w, words[c]])])
         ctx.guard(check_case, {"history": hist, "share": True})
+    # one *linear* fragment object (origin inside the part) typed twice, by the same or related classes: typing
+    # must not rewrite the record it looks at (its topology annotation decides how it is searched)
+    for _ in range(ctx.budget(80, 1500)):
+        a = rng.randrange(n)
+        b = rng.choice([a, rng.choice(related)[1] if related else a])
+        w = gen.rot(words[a], rng.randrange(1, len(words[a])))
+        ctx.guard(check_case, {"history": [[b, w, "L"], [a, w, "L"]], "share": True})
     # a record with one occurrence of the structure, then one with two, typed by the same class: which
     # occurrence is reported (hence verdict, overhangs, target) must be that of a fresh interpreter
     for _ in range(ctx.budget(150, 3000)):
